@@ -373,7 +373,10 @@ func instrumentFile(p *packages.Package, f *ast.File, fe *fileEdits, st *stats) 
 				repl = fmt.Sprintf("verifRWRUnlock(%s)", addr)
 			case "Once.Do":
 				if len(n.Args) == 1 {
-					repl = fmt.Sprintf("verifOnceDo(%s, %s)", addr, text(n.Args[0]))
+					// replace only the head of the call: the argument may be a function literal
+					// that carries edits of its own
+					fe.edits = append(fe.edits, edit{off(n.Pos()), off(n.Args[0].Pos()), fmt.Sprintf("verifOnceDo(%s, ", addr), 1})
+					st.Locks++
 				}
 			default:
 				st.Warnings = append(st.Warnings, fmt.Sprintf("%s: sync call %s.%s is not modelled by the scheduler", site(n.Pos()), typ, sel.Sel.Name))
